@@ -26,6 +26,7 @@ Search    : every transition record of the implementation is checked directly ag
 from __future__ import annotations
 
 import contextlib
+import time
 import io
 import json
 import math
@@ -52,7 +53,11 @@ def _torch():
     return torch
 
 
+LOOSEN = [1.0]  # float32 runs: every tolerance of the oracles is widened to float32 accuracy
+
+
 def close(a, b, tol):
+    tol = max(tol, 3e-4) if LOOSEN[0] > 1 else tol
     if a == b:
         return True
     if isinstance(a, float) and isinstance(b, float) and (math.isnan(a) or math.isnan(b)):
@@ -116,7 +121,7 @@ def build_target(spec, values):
     from torchtree.distributions.distributions import Distribution
     from torchtree.distributions.joint_distribution import JointDistributionModel
 
-    D = torch.float64
+    D = torch.float32 if spec.get("dtype") == "float32" else torch.float64
     T = lambda v: torch.tensor(v, dtype=D)
     kind = spec["kind"]
     if kind == "normal":
@@ -174,6 +179,7 @@ def build_target(spec, values):
 
 def build_operators(spec_ops, params, joint):
     torch = _torch()
+    pdtype = params[0].tensor.dtype
     from torchtree.core.parameter import Parameter
     from torchtree.inference.hmc.integrator import LeapfrogIntegrator
     from torchtree.inference.hmc.operator import HMCOperator
@@ -207,7 +213,7 @@ def build_operators(spec_ops, params, joint):
         elif o["kind"] == "hmc":
             inner = LeapfrogIntegrator(f"lf{i}", o["steps"], o["scale"])
             integ = IntegProxy(inner)
-            mass = Parameter(f"mass{i}", torch.tensor(o["mass"], dtype=torch.float64))
+            mass = Parameter(f"mass{i}", torch.tensor(o["mass"], dtype=pdtype))
             if o.get("adaptors"):
                 op = HMCOperator(f"op{i}", joint, ps, integ, mass, o["weight"], o["target"],
                                  build_adaptors(o["adaptors"], inner, ps, mass, i), **kw)
@@ -570,6 +576,8 @@ def execute_run(cfg, tape_seed):
             cur["sample"] = sample
             cur["row"] = list(rows[-1]) if rows else None
             cur["log_sample"] = log_samples[-1] if log_samples else None
+            cur["dtypes"] = [str(p.tensor.dtype) for p in params]
+            cur["requires_grad"] = [bool(p.requires_grad) for p in params]
             cur["n_rows"] = len(rows)
             if is_hmc and op._adaptors:
                 cur["adaptors_before"] = [adaptor_state(a) for a in op._adaptors]
@@ -613,7 +621,10 @@ def execute_run(cfg, tape_seed):
     old_dtype = torch.get_default_dtype()
     if is_sky:
         torch.set_default_dtype(torch.float64)  # the block update allocates in the default dtype
-    with Scripted(torch, rng, coarse=is_sky) as sc, contextlib.redirect_stdout(io.StringIO()):
+    if cfg.get("default_dtype"):
+        torch.set_default_dtype(torch.float64 if cfg["default_dtype"] == "float64" else torch.float32)
+    grad_ctx = torch.no_grad() if cfg.get("no_grad") else contextlib.nullcontext()
+    with Scripted(torch, rng, coarse=is_sky) as sc, contextlib.redirect_stdout(io.StringIO()), grad_ctx:
         try:
             mc.run()
         except ZeroDivisionError:
@@ -826,7 +837,10 @@ def compare_run(ck: Check, drv, cfg, res, label):
         # dual averaging multiplies differences of the acceptance statistic by sqrt(counter)/gamma (~1e2): the
         # model's own acceptance probabilities differ from torch's in the last bits, hence 1e-8 there
         has_dual = any(a["type"] == "dual" for a in cfg["ops"][r["op"]].get("adaptors", []))
-        if not close(m["scale"], r["scale_after"], 1e-6 if okind == "block" else 1e-8 if has_dual else 1e-12):
+        # after a FAILED proposal MCMC.run hands tune `torch.zeros_like(hastings_ratio)`, a float32 zero (the operators'
+        # `torch.tensor(float("inf"))` is float32): dual averaging then computes its statistic in float32
+        dual_tol = 1e-6 if not math.isfinite(r["hr"]) else 1e-8
+        if not close(m["scale"], r["scale_after"], 1e-6 if okind == "block" else dual_tol if has_dual else 1e-12):
             bad.append(f"scale after tuning (model {m['scale']}, impl {r['scale_after']})")
         if (m["adapt_count"], m["accept"], m["reject"], m["window"]) != (r["adapt_count"], r["n_accept"], r["n_reject"], r["window"]):
             bad.append("counters / acceptance window")
@@ -836,7 +850,7 @@ def compare_run(ck: Check, drv, cfg, res, label):
         if "adaptors_after" in r:
             for ma, ia in zip(m["adaptors"], r["adaptors_after"]):
                 if ma["type"] != ia["type"] or any(ma.get(k) != ia.get(k) for k in ("calls", "accepted", "counter")) or \
-                        any(not close(ma.get(k, 0.0), ia.get(k, 0.0), 1e-8) for k in ("x", "xbar", "sbar") if k in ia):
+                        any(not close(ma.get(k, 0.0), ia.get(k, 0.0), dual_tol) for k in ("x", "xbar", "sbar") if k in ia):
                     bad.append(f"adaptor state (model {ma}, impl {ia})")
         if r["row"] is not None:
             if not states_close([r["row"][:-1]], [flatten(m["after"])], tol):
@@ -864,6 +878,64 @@ def compare_run(ck: Check, drv, cfg, res, label):
     if res["epoch_end"] != epoch and res["error"] is None:
         ck.mismatch("iteration counter after the run differs", {"impl": res["epoch_end"], "model": epoch})
     return True
+
+
+def compare_dtype_reference(ck, cfg, tseed, res, found):
+    """the same run with float64 parameters: while the decisions agree the float32 chain must follow the float64 chain
+    to float32 accuracy"""
+    cfg64 = json.loads(json.dumps(cfg))
+    cfg64["target"].pop("dtype")
+    cfg64.pop("default_dtype", None)
+    ref = execute_run(cfg64, tseed)
+    n = 0
+    for a, b in zip(res["records"], ref["records"]):
+        if a["op"] != b["op"] or a["accepted"] != b["accepted"]:
+            break
+        n += 1
+        if not states_close(a["after"], b["after"], 2e-4) or not close(a["hr"], b["hr"], 2e-3):
+            found.append((f"{cfg['ops'][a['op']]['kind']}:float32-run-differs-from-float64",
+                          {"clause": "with float32 parameters the chain leaves the float64 chain although every decision agreed",
+                           "float32": a["after"], "float64": b["after"], "hr32": a["hr"], "hr64": b["hr"]}, cfg, n - 1, tseed))
+            break
+    ck.case(("dtype-ref", tseed), {"via": "float32 run vs float64 run, same tape", "default_dtype": cfg.get("default_dtype"),
+                                   "transitions_compared": n}, nontrivial=n > 0, bucket="dtype/float32-vs-float64/" + str(cfg.get("default_dtype")))
+
+
+def compare_grad_mode(ck, cfg, tseed, res, found):
+    """GRAD MODES: the whole run inside torch.no_grad() must be the same chain, bit for bit (operators that do not need
+    autograd; HMC needs it and asserts requires_grad False on its inputs)"""
+    cfg2 = json.loads(json.dumps(cfg))
+    cfg2["no_grad"] = True
+    r2 = execute_run(cfg2, tseed)
+    same = r2["error"] is None and len(r2["records"]) == len(res["records"]) and all(
+        a["after"] == b["after"] and a["accepted"] == b["accepted"] and (a["hr"] == b["hr"] or (math.isnan(a["hr"]) and math.isnan(b["hr"])))
+        and a["scale_after"] == b["scale_after"] for a, b in zip(res["records"], r2["records"]))
+    ck.case(("no-grad", tseed), {"via": "MCMC.run inside torch.no_grad() vs autograd enabled", "same": same}, bucket="grad-mode/no_grad-vs-enabled")
+    if not same:
+        found.append(("MCMC.run:grad-mode", {"clause": "the run inside torch.no_grad() differs from the run with autograd enabled",
+                                             "error": r2["error"]}, cfg2, 0, tseed))
+
+
+def scan_constructors():
+    """checklist item 2: tensor constructors in the anchored files that name no dtype (they take the default dtype or
+    the dtype of a Python scalar); listed in the evidence"""
+    import re
+
+    out = []
+    files = ["torchtree/inference/mcmc/mcmc.py", "torchtree/inference/mcmc/operator.py",
+             "torchtree/inference/mcmc/gmrf_block_updating.py", "torchtree/inference/hmc/operator.py",
+             "torchtree/inference/hmc/integrator.py", "torchtree/inference/hmc/hamiltonian.py",
+             "torchtree/inference/hmc/adaptation.py", "torchtree/ops/welford.py", "torchtree/core/logger.py"]
+    pat = re.compile(r"torch\.(tensor|zeros|ones|rand|randn|randint|full|eye|arange|linspace|empty)\(")
+    for f in files:
+        try:
+            lines = (REPO / f).read_text().splitlines()
+        except OSError:
+            continue
+        for i, line in enumerate(lines, 1):
+            if pat.search(line) and "dtype" not in line and "dtype" not in (lines[i] if i < len(lines) else ""):
+                out.append(f"{f}:{i}: {line.strip()[:90]}")
+    return out
 
 
 def cfg_pub(cfg):
@@ -912,12 +984,12 @@ def is_inverse(im, mass):
         for i in range(n):
             for j in range(n):
                 v = sum(im[i][k] * mass[k][j] for k in range(n))
-                if abs(v - (1.0 if i == j else 0.0)) > 1e-7:
+                if abs(v - (1.0 if i == j else 0.0)) > (1e-4 if LOOSEN[0] > 1 else 1e-7):
                     return False
         return True
     if im and isinstance(im[0], list):
         return False
-    return all(abs(a * b - 1.0) <= 1e-9 for a, b in zip(im, mass))
+    return all(abs(a * b - 1.0) <= (1e-5 if LOOSEN[0] > 1 else 1e-9) for a, b in zip(im, mass))
 
 
 def kin_float(im, v):
@@ -994,7 +1066,8 @@ def true_hastings(cfg, r):
             return None, None  # the scaled coordinate is exactly 0 (or s = 1): the multiplier cannot be read off
         i, j = diffs[0]
         s = p[i][j] / b[i][j]
-        if not (a * (1 - 1e-12) <= s <= (1 / a) * (1 + 1e-12)):
+        slack = 1e-5 if LOOSEN[0] > 1 else 1e-12
+        if not (a * (1 - slack) <= s <= (1 / a) * (1 + slack)):
             return None, f"multiplier {s} outside [a, 1/a]"
         return -math.log(s), None
     if kind == "window":
@@ -1002,7 +1075,7 @@ def true_hastings(cfg, r):
             return None, "sliding window changed more than one coordinate"
         if diffs:
             i, j = diffs[0]
-            if abs(p[i][j] - b[i][j]) > a / 2 * (1 + 1e-12):
+            if abs(p[i][j] - b[i][j]) > a / 2 * (1 + (1e-5 if LOOSEN[0] > 1 else 1e-12)):
                 return None, "shift larger than half the window"
         return 0.0, None
     if kind == "dirichlet":
@@ -1053,7 +1126,8 @@ def check_records(ck: Check, cfg, res, found, label):
     if isinstance(fresh0, float) and not close(fresh0, carried, 1e-9):
         found.append(("MCMC.run:initial-density", {"clause": "initial log_joint is not the target at the initial state",
                                                    "carried": carried, "fresh": fresh0}, cfg, 0))
-    hmc_counts = {}
+    hmc_counts, mass_samples = {}, {}
+    LOOSEN[0] = 1e5 if cfg["target"].get("dtype") == "float32" else 1.0
     for it, r in enumerate(recs := res["records"]):
         o = cfg["ops"][r["op"]]
         kind = o["kind"]
@@ -1110,7 +1184,7 @@ def check_records(ck: Check, cfg, res, found, label):
         elif used_u and u is not None:
             la = (lp - carried) + r["hr"]
             prob_acc = 1.0 if la >= 0 else math.exp(la)
-            if abs(prob_acc - u) > 1e-6 * max(u, 1e-30):  # outside the float32 comparison zone
+            if abs(prob_acc - u) > (1e-3 if LOOSEN[0] > 1 else 1e-6) * max(u, 1e-30):  # outside the float32 comparison zone
                 if r["accepted"] != (u < prob_acc):
                     found.append((f"{kind}:accept-rule", {"clause": "accepted <=> u < min(1, exp(delta + hr)) violated",
                                                           "u": u, "delta": lp - carried, "hr": r["hr"],
@@ -1136,6 +1210,15 @@ def check_records(ck: Check, cfg, res, found, label):
                               {"clause": "the operator reported that it has no proposal (returned " + str(r["hr"]) + ") but: "
                                          + "; ".join(probs), "before": r["before"], "after": r["after"],
                                "acc_prob": r["acc_prob"], "accepted": r["accepted"]}, cfg, it))
+        # 3d. dtype of every parameter is what it was handed in as; no parameter is left requiring grad
+        want_dt = "torch.float32" if cfg["target"].get("dtype") == "float32" else "torch.float64"
+        if any(d != want_dt for d in r.get("dtypes", [])):
+            found.append((f"{kind}:parameter-dtype-changed",
+                          {"clause": "a transition changed the dtype of a parameter", "dtypes": r["dtypes"], "expected": want_dt}, cfg, it))
+        if any(r.get("requires_grad", [])):
+            found.append((f"{kind}:requires-grad-left-behind",
+                          {"clause": "after the transition a parameter still requires grad (the next in-place proposal on it raises)",
+                           "requires_grad": r["requires_grad"]}, cfg, it))
         # 3c. tune() of the selected operator touches no other operator
         if r.get("cross_tune"):
             found.append(("MCMC.run:tune-changes-other-operator",
@@ -1190,6 +1273,38 @@ def check_records(ck: Check, cfg, res, found, label):
                                    "statistic": ("acceptance rate" if a["use_rate"] else "acceptance probability"),
                                    "value": stat, "target": a["target"], "hmc_call": st_["calls"],
                                    "step_before": s0, "step_after": s1, "adaptor": a}, cfg, it))
+            for a in o["adaptors"]:
+                if a["type"] != "mass" or "mass_after" not in r:
+                    continue
+                # MassMatrixAdaptor: the re-estimated matrix against an independent float64 two-pass estimate from the
+                # states the operator left after each of its calls (checklist item 2: float64 inputs, float64 accuracy)
+                own = [x for k in o["pidx"] for x in r["after"][k]]
+                ms = mass_samples.setdefault(r["op"], [])
+                if st_["calls"] >= (a.get("start") if a.get("start") is not None else 0):
+                    ms.append(own)
+                if r["mass_after"] != r["mass_now"] and len(ms) > 4:
+                    import numpy as np
+
+                    X = np.array(ms, dtype=np.float64)
+                    n_ = len(ms)
+                    dense = isinstance(r["mass_after"][0], list)
+                    V = np.cov(X.T, ddof=1).reshape(X.shape[1], X.shape[1]) if dense else X.var(axis=0, ddof=1)
+                    if a.get("regularize", True):
+                        V = V * (n_ / (n_ + 5.0))
+                        V = V + (np.eye(X.shape[1]) if dense else 1.0) * 1e-3 * (5.0 / (n_ + 5.0))
+                    got = np.array(r["mass_after"], dtype=np.float64)
+                    ck.bucket("oracle/mass-matrix-estimate/" + ("dense" if dense else "diag"))
+                    if dense:
+                        ok_ = np.linalg.cond(V) > 1e3 or np.allclose(np.linalg.inv(got), V, rtol=1e-8, atol=1e-10)
+                    else:
+                        ok_ = np.allclose(1.0 / got, V, rtol=1e-9, atol=1e-12)
+                    if not ok_:
+                        found.append(("MassMatrixAdaptor:estimate-precision",
+                                      {"clause": "the re-estimated mass matrix differs from the (regularised) sample variance of the "
+                                                 "operator's states beyond float64 accuracy (the running mean is kept in the default "
+                                                 "dtype)", "samples": n_,
+                                       "inverse_mass_from_adaptor": (np.linalg.inv(got) if dense else 1.0 / got).tolist(),
+                                       "independent_estimate": V.tolist()}, cfg, it))
             for bp in r.get("branch", []):
                 ck.bucket("oracle/adaptor-monotone/" + bp["adaptor"])
                 if "error" in bp:
@@ -1252,7 +1367,10 @@ def real_tune(kind, scale, acc, target, count):
 def tuning_cases(ck: Check, drv, rng, n, found):
     for _ in range(n):
         kind = rng.choice(KINDS)
-        if kind == "scaler":
+        special = rng.random() < 0.15  # scales whose adaptable parameter is exactly 0 (log 1, logit 1/2, sqrt 0)
+        if special:
+            scale = {"scaler": 0.5, "block": 1.0}.get(kind, 1.0)
+        elif kind == "scaler":
             scale = rng.uniform(0.01, 0.99)
         elif kind == "block":
             scale = 1.0 + rng.choice([0.0, rng.uniform(0, 5)])
@@ -1431,7 +1549,9 @@ def gen_cfg(rng, family, adapt, iterations):
         n = rng.randint(1, 3)
         t = {"kind": "normal", "loc": [rng.uniform(-1, 1) for _ in range(n)], "scale": [rng.uniform(0.5, 2) for _ in range(n)],
              "init": [[rng.uniform(-2, 2) for _ in range(n)]]}
-        ops = [op("window", [0], rng.uniform(0.2, 3)), op("scaler", [0], rng.uniform(0.2, 0.9))]
+        ops = [op("window", [0], rng.choice([1.0, rng.uniform(0.2, 3)])), op("scaler", [0], rng.choice([0.5, rng.uniform(0.2, 0.9)]))]
+        if rng.random() < 0.2:
+            iterations = rng.choice([1, 2])  # minimum sizes
         if rng.random() < 0.5:
             mass = [rng.uniform(0.5, 2) for _ in range(n)]
             ops.append(op("hmc", [0], rng.choice([0.05, 0.1, 0.3]), steps=rng.randint(1, 6), mass=mass,
@@ -1505,6 +1625,17 @@ def gen_cfg(rng, family, adapt, iterations):
             if via == "json":
                 o_.pop("window_len", None)
         iterations = max(iterations, 50)
+        exact = False
+    elif family == "dtype":
+        # float32 parameters (and hyper-parameters, mass matrix) through the whole loop, default dtype float32 or float64
+        n = rng.randint(1, 3)
+        t = {"kind": "normal", "dtype": "float32", "loc": [rng.randint(-4, 4) / 4 for _ in range(n)],
+             "scale": [rng.choice([0.5, 1.0, 2.0]) for _ in range(n)], "init": [[rng.randint(-8, 8) / 4 for _ in range(n)]]}
+        mass = [rng.choice([0.5, 1.0, 2.0]) for _ in range(n)]
+        ops = [op("window", [0], rng.choice([0.5, 1.0, 2.0])), op("scaler", [0], rng.choice([0.5, 0.75])),
+               op("hmc", [0], rng.choice([0.125, 0.25]), steps=rng.randint(1, 4), mass=mass,
+                  G=[[(1.0 / t["scale"][i] ** 2 if i == j else 0.0) for j in range(n)] for i in range(n)],
+                  b=[-t["loc"][i] / t["scale"][i] ** 2 for i in range(n)], target=0.8)]
         exact = False
     elif family == "fail":
         # an operator that never has a proposal (harness-side, returns the constants the shipped operators use for that)
@@ -1581,7 +1712,8 @@ def gen_cfg(rng, family, adapt, iterations):
         exact = True
     any_adapt = any(o["adapt"] or o.get("adaptors") for o in ops)
     return {"family": family, "target": t, "ops": ops, "iterations": iterations,
-            "oracle_only": any(o["kind"] == "stub" for o in ops),
+            "oracle_only": any(o["kind"] == "stub" for o in ops) or family == "dtype",
+            **({"default_dtype": rng.choice(["float32", "float64"])} if family == "dtype" else {}),
             # bit-exact agreement is demanded when only elementwise IEEE operations are on the state path: no
             # adaptation (exp/log in the scale) and no HMC (torch's matmul sums in its own order once the state is
             # no longer dyadic; bit-exactness of the integrator is C16's tie)
@@ -1640,12 +1772,19 @@ def run(ck: Check):
             if "cfg" in c:
                 runs.append((c["cfg"], c["tape_seed"], "corpus/" + f.stem))
         fams = ["normal", "gamma_exp", "dirichlet", "quad", "quad_nan", "hmc_adapt", "hmc_adapt", "edge", "skygrid", "skygrid",
-                "multi", "multi", "fail"]
+                "multi", "multi", "fail", "dtype"]
         for i in range(n_runs):
-            fam = fams[i % 13]
-            adapt = [True, False, "mixed"][(i // 13) % 3]
+            fam = fams[i % 14]
+            adapt = [True, False, "mixed"][(i // 14) % 3]
             runs.append((gen_cfg(rng, fam, adapt, rng.randint(*iters)), rng.randrange(1 << 30), f"run{i}"))
+        budget_s = 600 if thorough else 70
         for cfg, tseed, label in runs:
+            if time.time() - ck.t0 > budget_s:
+                ck.bucket("runs/skipped-time-budget")  # verdict hygiene: the check reports within its budget
+                continue
+            if len({f[0] for f in found}) >= 8:
+                ck.bucket("runs/skipped-after-findings")  # work after findings is bounded
+                continue
             try:
                 res = execute_run(cfg, tseed)
             except Exception as e:  # building the objects failed: implementation problem, not a harness crash
@@ -1670,6 +1809,10 @@ def run(ck: Check):
                 found[j] = found[j] + (tseed,)
             if drv and not cfg.get("oracle_only"):
                 compare_run(ck, drv, cfg, res, label)
+            if cfg["family"] == "dtype" and not res["error"]:
+                compare_dtype_reference(ck, cfg, tseed, res, found)
+            if cfg["family"] in ("gamma_exp", "dirichlet") and not res["error"] and time.time() - ck.t0 < 70:
+                compare_grad_mode(ck, cfg, tseed, res, found)
         if drv:
             tuning_cases(ck, drv, rng, 1500 if thorough else 300, found)
             tune_sequences(ck, drv, rng, 200 if thorough else 40, found)
@@ -1687,6 +1830,7 @@ def run(ck: Check):
         if drv:
             drv.close()
     ck.extra["runs"] = len(runs)
+    ck.extra["tensor_constructors_without_dtype"] = scan_constructors()
     # ---- verdict
     if found:
         seen = set()
